@@ -277,44 +277,56 @@ def _cset(s):
 M2O_DEFAULT = "save-update, merge"
 
 
-def build_u1(cascade="save-update, merge", fk_nullable=True, twin=False, m2o_cascade=M2O_DEFAULT):
+def build_u1(cascade="save-update, merge", fk_nullable=True, twin=False, m2o_cascade=M2O_DEFAULT, sides="both", names=("Parent", "Child")):
+    """sides: 'both' (bidirectional), 'o2m' (only Parent.children), 'm2o' (only Child.parent).
+    names: class names of the two mapped classes (the unit of work breaks ties between otherwise unordered actions by
+    mapper name, so C31 runs the world under both alphabetical orders)"""
+    pn, cn = names
+
     class Base(DeclarativeBase):
         pass
 
-    class Parent(Base):
-        __tablename__ = "parent"
-        id = mapped_column(Integer, primary_key=True, autoincrement=False)
-        name = mapped_column(String, nullable=True)
-        children = relationship("Child", back_populates="parent", cascade=cascade, order_by="Child.id")
-        __repr__ = _repr
-
-    class Child(Base):
-        __tablename__ = "child"
-        id = mapped_column(Integer, primary_key=True, autoincrement=False)
-        name = mapped_column(String, nullable=True)
-        parent_id = mapped_column(ForeignKey("parent.id"), nullable=fk_nullable)
-        parent = relationship("Parent", back_populates="children", cascade=m2o_cascade)
-        __repr__ = _repr
+    pd = dict(
+        __tablename__="parent",
+        id=mapped_column(Integer, primary_key=True, autoincrement=False),
+        name=mapped_column(String, nullable=True),
+        __repr__=_repr,
+    )
+    if sides != "m2o":
+        pd["children"] = relationship(cn, back_populates="parent" if sides == "both" else None, cascade=cascade, order_by=cn + ".id")
+    Parent = type(pn, (Base,), pd)
+    cd = dict(
+        __tablename__="child",
+        id=mapped_column(Integer, primary_key=True, autoincrement=False),
+        name=mapped_column(String, nullable=True),
+        parent_id=mapped_column(ForeignKey("parent.id"), nullable=fk_nullable),
+        __repr__=_repr,
+    )
+    if sides != "o2m":
+        cd["parent"] = relationship(pn, back_populates="children" if sides == "both" else None, cascade=m2o_cascade)
+    Child = type(cn, (Base,), cd)
 
     spec = ref.Spec(
         classes=[
-            ref.Cls("Parent", [ref.Tab("parent", "id", ["id", "name"])], pk="id", cols={"id": "id", "name": "name"}),
-            ref.Cls("Child", [ref.Tab("child", "id", ["id", "name", "parent_id"])], pk="id", cols={"id": "id", "name": "name"}),
+            ref.Cls(pn, [ref.Tab("parent", "id", ["id", "name"])], pk="id", cols={"id": "id", "name": "name"}),
+            ref.Cls(cn, [ref.Tab("child", "id", ["id", "name", "parent_id"])], pk="id", cols={"id": "id", "name": "name"}),
         ],
         links=[
-            ref.Link("pc", holder="Child", fk="parent_id", table="child", target="Parent", m2o="parent", o2m="children",
-                     uselist=True, c_o2m=_cset(cascade), c_m2o=_cset(m2o_cascade), nullable=fk_nullable)
+            ref.Link("pc", holder=cn, fk="parent_id", table="child", target=pn, m2o="parent" if sides != "o2m" else None,
+                     o2m="children" if sides != "m2o" else None,
+                     uselist=True, c_o2m=_cset(cascade) if sides != "m2o" else frozenset(), c_m2o=_cset(m2o_cascade) if sides != "o2m" else frozenset(),
+                     nullable=fk_nullable)
         ],
     )
     uni = [
-        ("p1", "Parent", dict(id=1, name="p1")),
-        ("p2", "Parent", dict(id=2, name="p2")),
-        ("c1", "Child", dict(id=1, name="c1")),
-        ("c2", "Child", dict(id=2, name="c2")),
+        ("p1", pn, dict(id=1, name="p1")),
+        ("p2", pn, dict(id=2, name="p2")),
+        ("c1", cn, dict(id=1, name="c1")),
+        ("c2", cn, dict(id=2, name="c2")),
     ]
     if twin:
-        uni.append(("c1b", "Child", dict(id=1, name="c1b")))
-    return World(None, Base, dict(Parent=Parent, Child=Child), spec, uni)
+        uni.append(("c1b", cn, dict(id=1, name="c1b")))
+    return World(None, Base, {pn: Parent, cn: Child}, spec, uni)
 
 
 def build_u7(cascade="save-update, merge"):
@@ -355,7 +367,7 @@ def build_u7(cascade="save-update, merge"):
     return World(None, Base, dict(Parent=Parent, Child=Child), spec, uni)
 
 
-def build_u3(cascade="save-update, merge"):
+def build_u3(cascade="save-update, merge", sides="both"):
     class Base(DeclarativeBase):
         pass
 
@@ -364,15 +376,18 @@ def build_u3(cascade="save-update, merge"):
         id = mapped_column(Integer, primary_key=True, autoincrement=False)
         name = mapped_column(String, nullable=True)
         parent_id = mapped_column(ForeignKey("node.id"), nullable=True)
-        children = relationship("Node", back_populates="parent", cascade=cascade, order_by="Node.id")
-        parent = relationship("Node", back_populates="children", remote_side=[id])
+        if sides != "m2o":
+            children = relationship("Node", back_populates="parent" if sides == "both" else None, cascade=cascade, order_by="Node.id")
+        if sides != "o2m":
+            parent = relationship("Node", back_populates="children" if sides == "both" else None, remote_side=[id])
         __repr__ = _repr
 
     spec = ref.Spec(
         classes=[ref.Cls("Node", [ref.Tab("node", "id", ["id", "name", "parent_id"])], pk="id", cols={"id": "id", "name": "name"})],
         links=[
-            ref.Link("tree", holder="Node", fk="parent_id", table="node", target="Node", m2o="parent", o2m="children",
-                     uselist=True, c_o2m=_cset(cascade), c_m2o=_cset(M2O_DEFAULT), nullable=True)
+            ref.Link("tree", holder="Node", fk="parent_id", table="node", target="Node", m2o="parent" if sides != "o2m" else None,
+                     o2m="children" if sides != "m2o" else None, uselist=True, c_o2m=_cset(cascade) if sides != "m2o" else frozenset(),
+                     c_m2o=_cset(M2O_DEFAULT) if sides != "o2m" else frozenset(), nullable=True)
         ],
     )
     uni = [("n%d" % i, "Node", dict(id=i, name="n%d" % i)) for i in (1, 2, 3, 4)]
@@ -1254,3 +1269,35 @@ def install_session_hooks(session):
     event.listen(session, "before_flush", bf)
     event.listen(session, "after_flush", af)
     event.listen(session, "after_flush_postexec", afp)
+
+
+def explore_with_probes(rec, root, enabled, step, depth, probes=(("flush",), ("commit",))):
+    """BFS by replay like vf.engines.hist.explore, plus: at every state on the last level the *probe* operations are
+    applied (checked in lock-step like any operation) without extending the search -- so every history of `depth`
+    operations is followed by a flush and by a commit.  root = (history, model, key)"""
+    from collections import deque
+
+    hist0, ms0, key0 = root
+    frontier = deque()
+    if rec.state(key0):
+        frontier.append((tuple(hist0), ms0, 0))
+    maxd = 0
+    while frontier:
+        h, ms, d = frontier.popleft()
+        if d >= depth:
+            for op in probes:
+                rec.transition()
+                rec.trace()
+                step(h, ms, op)
+            continue
+        for op in enabled(ms):
+            rec.transition()
+            rec.trace()
+            out = step(h, ms, op)
+            if out is None:
+                continue
+            nms, key = out
+            if rec.state(key):
+                frontier.append((h + (op,), nms, d + 1))
+                maxd = max(maxd, d + 1)
+    return maxd
